@@ -30,6 +30,10 @@ struct Cfg {
     max_peers: usize,
     max_addrs: usize,
     expiry: Duration,
+    /// how the store is built: 0 = `BootstrapCacheStore::new(config)`; 1 = `new_from_peers_args` with a
+    /// `--bootstrap-cache-dir` (which takes precedence over the configured path: the configured path is a decoy
+    /// holding another, valid cache); 2 = `new_from_peers_args` without one (the configured path is used)
+    ctor: u8,
 }
 
 struct Pool {
@@ -142,6 +146,11 @@ static SEQ: AtomicU64 = AtomicU64::new(0);
 impl Drop for Sys {
     fn drop(&mut self) {
         let _ = std::fs::remove_file(&self.path);
+        if self.cfg.ctor == 1 {
+            if let Some(d) = self.path.parent() {
+                let _ = std::fs::remove_dir_all(d);
+            }
+        }
     }
 }
 
@@ -176,7 +185,25 @@ impl Sys {
     fn new(cfg: Arc<Cfg>, pool: Arc<Pool>) -> Sys {
         let path = mc_core::scratch_root().join(format!("c18-{}.json", SEQ.fetch_add(1, Ordering::Relaxed)));
         let c = BootstrapCacheConfig::empty().with_cache_path(&path).with_max_peers(cfg.max_peers).with_addrs_per_peer(cfg.max_addrs).with_addr_expiry_duration(cfg.expiry);
-        Sys { st: BootstrapCacheStore::new(c).expect("store"), cfg, pool, path }
+        match cfg.ctor {
+            0 => Sys { st: BootstrapCacheStore::new(c).expect("store"), cfg, pool, path },
+            1 => {
+                // the directory given on the command line decides where the cache lives; the configured path holds
+                // a valid cache of its own (prepared file 1) that this store must neither read nor write
+                let dir = path.with_extension("d");
+                std::fs::create_dir_all(&dir).unwrap();
+                let decoy = dir.join("configured-elsewhere.json");
+                std::fs::write(&decoy, &pool.files[1]).unwrap();
+                let c = c.with_cache_path(&decoy);
+                let args = ant_bootstrap::PeersArgs { bootstrap_cache_dir: Some(dir.clone()), ..Default::default() };
+                let st = BootstrapCacheStore::new_from_peers_args(&args, Some(c)).expect("store");
+                Sys { st, cfg, pool, path: dir.join(ant_bootstrap::config::cache_file_name()) }
+            }
+            _ => {
+                let args = ant_bootstrap::PeersArgs::default();
+                Sys { st: BootstrapCacheStore::new_from_peers_args(&args, Some(c)).expect("store"), cfg, pool, path }
+            }
+        }
     }
 
     fn check_bounds(&self, after: &str, fails: &mut Vec<Fail>) {
@@ -708,7 +735,8 @@ pub fn main(tier: Option<&str>) {
         "(H) BFS, replay mode, on a real BootstrapCacheStore: add_addr over 6 well-formed addresses of 2 peers + 6 ill-formed shapes, \
          update_addr_status(ok|fail), remove_addr, perform_cleanup, sync_and_flush_to_disk(with|without clean-up) against the current file or \
          one of 3 prepared files (fresh reliable, fresh with an unreliable address, two days old); depth 4(5); 8 configurations \
-         (max_peers 1|2 x max_addrs 1|2 x expiry 0|1 day); state key = memory and file entries with last_seen reduced to rank + expired flag. \
+         (max_peers 1|2 x max_addrs 1|2 x expiry 0|1 day); state key = memory and file entries with last_seen reduced to rank + expired flag; \
+         the same search one level shallower on stores built by new_from_peers_args with a --bootstrap-cache-dir (the configured path then holds a decoy cache) and without. \
          (F2) every truncation and every 3rd(every) byte substituted by 5 boundary bytes in a valid file, 7 foreign shapes. \
          (T) 3 cache files whose entries all carry the same last_seen x max_peers 1|2|3 x max_addrs 1|2 x 2 expiries x {load, flush with clean-up, add then flush, flush without clean-up then load}: limits only. \
          (C) 12 cache files written by a real store under the default limits (one peer with 1..=6 addresses, another with 1..=2) x per-peer limit 1..=5 x \
@@ -722,7 +750,7 @@ pub fn main(tier: Option<&str>) {
     for max_peers in [1usize, 2] {
         for max_addrs in [1usize, 2] {
             for expiry in [Duration::from_secs(0), Duration::from_secs(86400)] {
-                let cfg = Arc::new(Cfg { max_peers, max_addrs, expiry });
+                let cfg = Arc::new(Cfg { max_peers, max_addrs, expiry, ctor: 0 });
                 let p = pool.clone();
                 bfs_replay(
                     &run,
@@ -730,6 +758,19 @@ pub fn main(tier: Option<&str>) {
                     || Sys::new(cfg.clone(), p.clone()),
                 );
             }
+        }
+    }
+    // the store as a node or client really builds it: `new_from_peers_args`, with and without a cache directory
+    // given on the command line (one level shallower; the widest and the narrowest limits)
+    for ctor in [1u8, 2] {
+        for (max_peers, max_addrs) in [(2usize, 2usize), (1, 1)] {
+            let cfg = Arc::new(Cfg { max_peers, max_addrs, expiry: Duration::from_secs(86400), ctor });
+            let p = pool.clone();
+            bfs_replay(
+                &run,
+                BfsOpts { max_depth: depth - 1, wall_cap: Some(Duration::from_secs(run.pick(12, 600))), state_cap: None, label: format!("new_from_peers_args({})/peers<={max_peers}/addrs<={max_addrs}", if ctor == 1 { "cache dir" } else { "no cache dir" }) },
+                || Sys::new(cfg.clone(), p.clone()),
+            );
         }
     }
     corrupt_files(&run, &pool);
